@@ -714,3 +714,228 @@ Example oracle_accepts_sample :
   check_obs sample_api (model_obs sample_api) = 0
   /\ map o_res (model_obs sample_api) = [0; 0; 0; 0; 1; 0; 0; 0; 0; 0; 0; 2].
 Proof. vm_compute. split; reflexivity. Qed.
+
+(* ------------------------------------------------------------------ *)
+(* 12. Journaling store: the same theorems for the single-writer instance
+   (ChunkJournal.Update as the manifest step).                          *)
+Lemma mem_n_In x l : mem_n x l = true <-> In x l.
+Proof.
+  unfold mem_n. rewrite existsb_exists. split.
+  - intros [y [Hy E]]. apply N.eqb_eq in E. subst. exact Hy.
+  - intros H. exists x. split; [exact H | apply N.eqb_refl].
+Qed.
+
+Definition jvis (s : jstate) (x : chunk) : Prop :=
+  (exists l, j_mem s = Some l /\ In x l) \/ jtables_have s x = true.
+
+(* the writer's view is the journal's contents (one writer); every chunk Put since open is visible *)
+Definition JInv (s : jstate) : Prop :=
+  j_up s = (j_root s, j_spec s) /\ forall x, In x (j_puts s) -> jvis s x.
+
+Lemma JInv_init : JInv jinit.
+Proof. split; [reflexivity | intros x []]. Qed.
+
+Lemma jflush_spec s :
+  j_root (jflush s) = j_root s /\ j_spec (jflush s) = j_spec s /\ j_up (jflush s) = j_up s
+  /\ j_puts (jflush s) = j_puts s /\ incl (j_chunks s) (j_chunks (jflush s))
+  /\ (forall x, jvis s x -> jtables_have (jflush s) x = true).
+Proof.
+  unfold jflush. destruct (j_mem s) as [[|a l]|] eqn:M.
+  - repeat split; auto using incl_refl. intros x [[l [Hl Hx]] | H]; [| exact H].
+    rewrite M in Hl. inversion Hl; subst. contradiction.
+  - cbn [j_root j_spec j_up j_puts j_chunks]. repeat split; auto.
+    + apply incl_appl, incl_refl.
+    + intros x Hv.
+      assert (Hm : In x (j_chunks s ++ filter (fun x0 => negb (jtables_have s x0)) (a :: l))).
+      { apply in_or_app. destruct (jtables_have s x) eqn:T.
+        - left. unfold jtables_have in T. apply andb_true_iff in T. apply mem_n_In, T.
+        - right. apply filter_In. destruct Hv as [[l' [Hl Hx]] | H]; [| congruence].
+          rewrite M in Hl. inversion Hl; subst l'. split; [exact Hx | rewrite T; reflexivity]. }
+      unfold jtables_have at 1. cbn [j_novel j_up j_chunks orb andb]. apply mem_n_In. exact Hm.
+  - repeat split; auto using incl_refl. intros x [[l [Hl Hx]] | H]; [| exact H].
+    rewrite M in Hl. discriminate.
+Qed.
+
+(* One step: either the journal's root/spec are untouched, or it is a Commit
+   through ChunkJournal.Update that found root = last and installed cur with
+   every chunk Put since open in the journal. *)
+Lemma jstep_spec s st s' r : JInv s -> jstep_fn s st = (s', r) ->
+  JInv s' /\ incl (j_chunks s) (j_chunks s') /\ (j_spec s = true -> j_spec s' = true)
+  /\ r <> RNone
+  /\ ((j_root s' = j_root s /\ j_spec s' = j_spec s
+       /\ jswapped {| je_step := st; je_res := r; je_before := s; je_after := s' |} = false)
+      \/ (exists cur last, st = JCommit cur last /\ r = ROk
+          /\ jswapped {| je_step := st; je_res := r; je_before := s; je_after := s' |} = true
+          /\ j_root s = last /\ j_root s' = cur
+          /\ forall x, In x (j_puts s) -> jfresh_has s' x = true)).
+Proof.
+  intros [Iu Ip] E. unfold jswapped, jcommit_ok. cbn [je_step je_res je_before].
+  assert (SetUp : JInv (jset_up s (j_root s, j_spec s) (j_novel s))).
+  { split; [reflexivity |]. cbn [jset_up j_puts]. intros y Hy. destruct (Ip y Hy) as [H | H]; [left; exact H | right].
+    unfold jtables_have in *. cbn [jset_up j_novel j_up j_chunks snd]. rewrite Iu in H. exact H. }
+  destruct st as [x | | cur last | |]; cbn [jstep_fn] in E.
+  - inversion E; subst; clear E.
+    split; [| split; [apply incl_refl | split; [auto | split; [discriminate | left; repeat split]]]].
+    split; [exact Iu |]. cbn [jput j_puts]. intros y [Hy | Hy].
+    + subst y. left. cbn [jput j_mem]. destruct (j_mem s) as [l|].
+      * destruct (mem_n x l) eqn:Mx.
+        -- exists l. split; [reflexivity | apply mem_n_In; exact Mx].
+        -- exists (l ++ [x]). split; [reflexivity | apply in_or_app; right; left; reflexivity].
+      * exists [x]. split; [reflexivity | left; reflexivity].
+    + destruct (Ip y Hy) as [[l [Hl Hin]] | H].
+      * left. cbn [jput j_mem]. rewrite Hl. destruct (mem_n x l).
+        -- exists l. split; [reflexivity | exact Hin].
+        -- exists (l ++ [x]). split; [reflexivity | apply in_or_app; left; exact Hin].
+      * right. exact H.
+  - inversion E; subst; clear E.
+    split; [exact SetUp | split; [apply incl_refl | split; [auto | split; [discriminate | left; repeat split]]]].
+  - unfold jcommit in E. cbn [jis_commit].
+    destruct (negb (jany_novel s) && (cur =? last)) eqn:Sh.
+    { inversion E; subst; clear E.
+      split; [exact SetUp | split; [apply incl_refl | split; [auto | split; [discriminate | left; repeat split]]]]. }
+    destruct (fst (j_up s) =? last) eqn:R; cbn [negb] in E.
+    2:{ inversion E; subst; clear E.
+        split; [split; [exact Iu | exact Ip] | split; [apply incl_refl | split; [auto | split; [discriminate | left; repeat split]]]]. }
+    apply N.eqb_eq in R.
+    destruct (jflush_spec s) as [Fr [Fs [Fu [Fp [Fc Fv]]]]].
+    assert (JI1 : JInv (jflush s)).
+    { split; [rewrite Fr, Fs, Fu; exact Iu |]. intros y Hy. right. apply Fv, Ip. rewrite <- Fp. exact Hy. }
+    destruct (negb (cur =? 0) && negb (jtables_have (jflush s) cur)) eqn:Dg.
+    { inversion E; subst; clear E.
+      split; [exact JI1 | split; [exact Fc | split; [rewrite Fs; auto | split; [discriminate | left]]]].
+      rewrite Fr, Fs. repeat split. }
+    assert (Lk : lockb (j_root (jflush s), j_spec (jflush s)) (j_up (jflush s)) = true).
+    { rewrite Fr, Fs, Fu, Iu. unfold lockb. cbn [fst snd]. rewrite N.eqb_refl, eqb_reflx. reflexivity. }
+    rewrite Lk in E. cbn [negb] in E. inversion E; subst s' r; clear E.
+    cbn [j_root j_spec j_chunks j_up j_puts j_mem j_novel snd].
+    split; [| split; [exact Fc | split; [| split; [discriminate | right]]]].
+    + split; [reflexivity |]. cbn [j_puts]. intros y Hy. right. unfold jtables_have. cbn [j_novel j_up j_chunks snd orb].
+      rewrite Fp in Hy. specialize (Fv y (Ip y Hy)). unfold jtables_have in Fv. exact Fv.
+    + intros Sp. rewrite Fu, Iu. cbn [snd]. rewrite Sp. apply orb_true_r.
+    + exists cur, last. split; [reflexivity |]. split; [reflexivity |]. split; [reflexivity |].
+      split; [rewrite Iu in R; exact R |]. split; [reflexivity |].
+      intros y Hy. specialize (Fv y (Ip y Hy)). unfold jfresh_has, jtables_have in *.
+      cbn [j_spec j_chunks snd]. exact Fv.
+  - unfold jreopen in E. inversion E; subst; clear E. cbn [j_root j_spec j_chunks jis_commit].
+    split; [| split; [apply incl_refl | split; [auto | split; [| left; repeat split; apply andb_false_r]]]].
+    + split; [reflexivity | intros x []].
+    + destruct (j_wr s && negb (j_spec s)); discriminate.
+  - inversion E; subst; clear E.
+    split; [split; [exact Iu | exact Ip] | split; [apply incl_refl | split; [auto | split; [discriminate | left; repeat split]]]].
+Qed.
+
+Lemma jfinal_spec sc : forall s, JInv s ->
+  JInv (jfinal s sc) /\ incl (j_chunks s) (j_chunks (jfinal s sc)) /\ (j_spec s = true -> j_spec (jfinal s sc) = true).
+Proof.
+  induction sc as [| st rest IH]; intros s I; cbn [jfinal].
+  - repeat split; auto using incl_refl; apply I.
+  - destruct (jstep_fn s st) as [s' r] eqn:E. cbn [fst].
+    destruct (jstep_spec _ _ _ _ I E) as [I' [C [Sp _]]].
+    destruct (IH s' I') as [I'' [C' Sp']]. repeat split; try apply I''; auto.
+    eapply incl_tran; eauto.
+Qed.
+
+Lemma jtrace_event sc : forall s ev, JInv s -> In ev (jtrace s sc) ->
+  JInv (je_before ev) /\ jstep_fn (je_before ev) (je_step ev) = (je_after ev, je_res ev).
+Proof.
+  induction sc as [| st rest IH]; intros s ev I H; cbn [jtrace] in H; [contradiction |].
+  destruct (jstep_fn s st) as [s' r] eqn:E. destruct H as [H | H].
+  - subst ev. split; [exact I | exact E].
+  - apply (IH s'); [| exact H]. apply (jstep_spec _ _ _ _ I E).
+Qed.
+
+(* with one writer manifest.Update never finds a foreign lock *)
+Theorem j_never_stale sc ev : In ev (jtrace jinit sc) -> je_res ev <> RNone.
+Proof.
+  intros H. destruct (jtrace_event sc _ _ JInv_init H) as [I E].
+  destruct ev as [st r s s']. cbn [je_before je_step je_after je_res] in *.
+  apply (jstep_spec _ _ _ _ I E).
+Qed.
+
+Theorem j_failure_changes_nothing sc ev : In ev (jtrace jinit sc) -> jcommit_ok ev = false ->
+  j_root (je_after ev) = j_root (je_before ev) /\ j_spec (je_after ev) = j_spec (je_before ev).
+Proof.
+  intros H Nok. destruct (jtrace_event sc _ _ JInv_init H) as [I E].
+  destruct ev as [st r s s']. cbn [je_before je_step je_after je_res] in *.
+  destruct (jstep_spec _ _ _ _ I E) as [_ [_ [_ [_ [[A [B _]] | [cur [last [-> [-> _]]]]]]]]]; [auto |].
+  unfold jcommit_ok in Nok. cbn in Nok. discriminate.
+Qed.
+
+(* commit_is_cas for the journaling store: a Commit that answers true either
+   went through ChunkJournal.Update with journal root = last, installing cur
+   and every chunk Put since open, or is the nothing-novel cur = last shortcut
+   (which changes nothing — and ignores last: j_commit_is_cas_refuted). *)
+Theorem j_commit_is_cas_partial sc ev : In ev (jtrace jinit sc) -> jcommit_ok ev = true ->
+  exists cur last, jcommit_args ev = Some (cur, last) /\
+    ((jswapped ev = true /\ j_root (je_before ev) = last /\ j_root (je_after ev) = cur
+      /\ forall x, In x (j_puts (je_before ev)) -> jfresh_has (je_after ev) x = true)
+     \/ (jswapped ev = false /\ cur = last /\ jany_novel (je_before ev) = false
+         /\ j_root (je_after ev) = j_root (je_before ev) /\ j_spec (je_after ev) = j_spec (je_before ev))).
+Proof.
+  intros H Ok. destruct (jtrace_event sc _ _ JInv_init H) as [I E].
+  destruct ev as [st r s s']. cbn [je_before je_step je_after je_res] in *.
+  destruct (jstep_spec _ _ _ _ I E) as [_ [_ [_ [_ [[A [B Sw]] | [cur [last [-> [-> [Sw [R [R' P]]]]]]]]]]]].
+  - unfold jcommit_ok in Ok. cbn [je_res je_step] in Ok. apply andb_true_iff in Ok. destruct Ok as [Ok1 Ok2].
+    destruct st as [| | cur last | |]; try discriminate. exists cur, last. split; [reflexivity |]. right.
+    unfold jswapped, jcommit_ok in Sw. cbn [je_res je_step je_before jis_commit] in Sw.
+    rewrite Ok1 in Sw. cbn [andb] in Sw. apply negb_false_iff, andb_true_iff in Sw. destruct Sw as [Nv Eq].
+    apply N.eqb_eq in Eq. apply negb_true_iff in Nv.
+    repeat split; auto. unfold jswapped, jcommit_ok. cbn [je_res je_step je_before jis_commit].
+    rewrite Ok1, Nv, Eq, N.eqb_refl. reflexivity.
+  - exists cur, last. split; [reflexivity |]. left. repeat split; auto.
+Qed.
+
+Theorem j_commit_is_cas_refuted : exists sc, existsb jcas_viol_b (jtrace jinit sc) = true.
+Proof. exists [JCommit 3 3]. vm_compute. reflexivity. Qed.
+
+Theorem j_root_history_linear sc : forall s, JInv s ->
+  linked (j_root s) (jswaps (jtrace s sc)) (j_root (jfinal s sc)).
+Proof.
+  induction sc as [| st rest IH]; intros s I; cbn [jtrace jfinal jswaps flat_map linked]; [reflexivity |].
+  destruct (jstep_fn s st) as [s' r] eqn:E. cbn [fst flat_map]. fold (jswaps (jtrace s' rest)).
+  destruct (jstep_spec _ _ _ _ I E) as [I' [_ [_ [_ [[A [_ Sw]] | [cur [last [-> [-> [Sw [R [R' _]]]]]]]]]]]].
+  - unfold jswap_of. rewrite Sw. cbn [app]. rewrite <- A. apply IH. exact I'.
+  - unfold jswap_of. rewrite Sw. cbn [jcommit_args je_step app linked]. split; [symmetry; exact R |].
+    rewrite <- R'. apply IH. exact I'.
+Qed.
+
+(* ack_persist for the journaling store: after a Commit answered true through
+   ChunkJournal.Update, whatever happens later (including close + reopen), a
+   fresh journaling open has every chunk Put before that Commit since the
+   writer was opened, and its root is cur or linked to cur by later swaps. *)
+Theorem j_ack_persist sc1 cur last s2 sc2 :
+  jstep_fn (jfinal jinit sc1) (JCommit cur last) = (s2, ROk) ->
+  jswapped {| je_step := JCommit cur last; je_res := ROk; je_before := jfinal jinit sc1; je_after := s2 |} = true ->
+  let s3 := jfinal s2 sc2 in
+  (forall x, In x (j_puts (jfinal jinit sc1)) -> jfresh_has s3 x = true)
+  /\ linked cur (jswaps (jtrace s2 sc2)) (j_root s3).
+Proof.
+  intros E Sw s3.
+  destruct (jfinal_spec sc1 _ JInv_init) as [I1 _].
+  destruct (jstep_spec _ _ _ _ I1 E) as [I2 [_ [_ [_ [[_ [_ Sw']] | [c [l [Eq [_ [_ [_ [R' P]]]]]]]]]]]].
+  { rewrite Sw in Sw'. discriminate. }
+  injection Eq as Hc Hl. rewrite <- Hc in R'. destruct (jfinal_spec sc2 _ I2) as [_ [C Sp]]. split.
+  - intros x Hx. specialize (P x Hx). unfold jfresh_has in *. apply andb_true_iff in P. destruct P as [P1 P2].
+    fold s3 in C, Sp. rewrite (Sp P1). cbn [andb]. apply mem_n_In, C, mem_n_In. exact P2.
+  - rewrite <- R'. apply j_root_history_linear. exact I2.
+Qed.
+
+Example j_sample :
+  map je_res (jtrace jinit [JPut 1; JCommit 1 0; JPut 2; JCommit 3 1; JReopen; JPut 3; JReopen; JCommit 2 0; JPut 1; JCommit 1 1; JCommit 2 1; JProbe])
+  = [ROk; ROk; ROk; RDangling; ROk; ROk; ROk; RFalse; ROk; ROk; ROk; RBlocked]
+  /\ map (jfresh_has (jfinal jinit [JPut 1; JCommit 1 0; JPut 2; JCommit 3 1; JReopen; JPut 3; JReopen])) [1; 2; 3] = [true; true; false].
+Proof. vm_compute. split; reflexivity. Qed.
+
+Definition j_sample_api : jinput :=
+  {| ji_univ := [1; 2; 3; 4; 5];
+     ji_ops := [JAProbe; JAPut 1; JACommit (RId 1) RSelf; JAPut 2; JAProbe; JACommit (RId 3) RSelf; JAReopen;
+                JAPut 3; JAReopen; JACommit (RId 2) (RId 0); JAPut 1; JACommit RSelf RSelf; JARebase;
+                JACommit (RId 2) RSelf; JAReopen; JAProbe] |}.
+Definition j_witness_noop_api : jinput := {| ji_univ := [1; 2; 3]; ji_ops := [JAPut 1; JAReopen; JACommit (RId 3) (RId 3)] |}.
+
+Example j_oracle_accepts_sample :
+  jcheck_obs j_sample_api (jmodel_obs j_sample_api) = 0
+  /\ map jo_res (jmodel_obs j_sample_api) = [4; 0; 0; 0; 4; 2; 0; 0; 0; 1; 0; 0; 0; 0; 0; 4].
+Proof. vm_compute. split; reflexivity. Qed.
+Example j_oracle_rejects_noop : jcheck_obs j_witness_noop_api (jmodel_obs j_witness_noop_api) = 2.
+Proof. vm_compute. reflexivity. Qed.
